@@ -1776,7 +1776,82 @@ def _mm_loadl(m, a):
     return _vec(m.read_cells(a[0], 8) + [0] * 8)
 
 
+def _vint(v):
+    """The 128-bit value of a vector whose bytes are all concrete (little-endian lanes as in the register)."""
+    c = _vcells(v)
+    if not all(isinstance(x, int) for x in c):
+        raise Undecided("vector arithmetic on symbolic or uninitialised bytes")
+    return int.from_bytes(bytes(c), "little")
+
+
+def _ivec(x):
+    return _vec(list((x & ((1 << 128) - 1)).to_bytes(16, "little")))
+
+
+def _imm(a, k):
+    if not isinstance(a[k], int):
+        raise Undecided("non-constant immediate of a vector intrinsic")
+    return a[k]
+
+
+def _mm_clmul(m, a):
+    x, y, imm = _vint(a[0]), _vint(a[1]), _imm(a, 2)
+    p = (x >> 64) if imm & 0x01 else (x & ((1 << 64) - 1))
+    q = (y >> 64) if imm & 0x10 else (y & ((1 << 64) - 1))
+    r = 0
+    i = 0
+    while q >> i:
+        if (q >> i) & 1:
+            r ^= p << i
+        i += 1
+    return _ivec(r)
+
+
+def _mm_shuffle_epi32(m, a):
+    c, imm = _vcells(a[0]), _imm(a, 1)
+    out = []
+    for k in range(4):
+        sel = (imm >> (2 * k)) & 3
+        out += c[4 * sel: 4 * sel + 4]
+    return _vec(out)
+
+
+def _mm_shuffle_epi8(m, a):
+    c, mask = _vcells(a[0]), _vcells(a[1])
+    if not all(isinstance(x, int) for x in mask):
+        raise Undecided("symbolic shuffle mask")
+    return _vec([0 if x & 0x80 else c[x & 15] for x in mask])
+
+
+def _lanes64(f):
+    def g(m, a):
+        x, n = _vint(a[0]), _imm(a, 1)
+        lo, hi = x & ((1 << 64) - 1), x >> 64
+        return _ivec((f(lo, n) & ((1 << 64) - 1)) | ((f(hi, n) & ((1 << 64) - 1)) << 64))
+    return g
+
+
+def _mm_movemask_epi8(m, a):
+    c = _vcells(a[0])
+    if not all(isinstance(x, int) for x in c):
+        raise Undecided("movemask of symbolic bytes")
+    return sum(((x >> 7) & 1) << i for i, x in enumerate(c))
+
+
 BUILTINS = {
+    "_mm_clmulepi64_si128": _mm_clmul, "__builtin_ia32_pclmulqdq128": _mm_clmul,
+    "_mm_shuffle_epi32": _mm_shuffle_epi32, "_mm_shuffle_epi8": _mm_shuffle_epi8,
+    "_mm_slli_epi64": _lanes64(lambda v, n: 0 if n > 63 else v << n), "_mm_srli_epi64": _lanes64(lambda v, n: 0 if n > 63 else v >> n),
+    "_mm_slli_si128": lambda m, a: _ivec(0 if _imm(a, 1) > 15 else _vint(a[0]) << (8 * _imm(a, 1))),
+    "_mm_srli_si128": lambda m, a: _ivec(0 if _imm(a, 1) > 15 else _vint(a[0]) >> (8 * _imm(a, 1))),
+    "_mm_bslli_si128": lambda m, a: _ivec(0 if _imm(a, 1) > 15 else _vint(a[0]) << (8 * _imm(a, 1))),
+    "_mm_bsrli_si128": lambda m, a: _ivec(0 if _imm(a, 1) > 15 else _vint(a[0]) >> (8 * _imm(a, 1))),
+    "_mm_set_epi8": lambda m, a: _vec([x & 0xFF if isinstance(x, int) else x for x in reversed(a[:16])]),
+    "_mm_movemask_epi8": _mm_movemask_epi8, "__builtin_ia32_pmovmskb128": _mm_movemask_epi8,
+    "__builtin_ia32_pslldqi128_byteshift": lambda m, a: _ivec(0 if _imm(a, 1) > 15 else _vint(a[0]) << (8 * _imm(a, 1))),
+    "__builtin_ia32_psrldqi128_byteshift": lambda m, a: _ivec(0 if _imm(a, 1) > 15 else _vint(a[0]) >> (8 * _imm(a, 1))),
+    "__builtin_ia32_pshufd": _mm_shuffle_epi32, "__builtin_ia32_pshufb128": _mm_shuffle_epi8,
+    "__builtin_ia32_psllqi128": _lanes64(lambda v, n: 0 if n > 63 else v << n), "__builtin_ia32_psrlqi128": _lanes64(lambda v, n: 0 if n > 63 else v >> n),
     "_mm_set1_epi64x": _mm_set1_epi64x,
     "_mm_loadu_si128": _mm_loadu, "_mm_load_si128": _mm_loadu, "_mm_lddqu_si128": _mm_loadu,
     "_mm_storeu_si128": _mm_storeu, "_mm_store_si128": _mm_storeu,
